@@ -440,10 +440,27 @@ def s_pspec(C, g):
                                   "inf": st.sampled_from([False] * 9 + [True])})
 
 
+def family_scalars(C):
+    """Scalars algebraically related to the curve family parameter (x for BLS12-381, t for BN254) and to
+    the group order: where scalar decompositions, folding n -> r - n and windowing have corner cases."""
+    from vf.model import params
+    z = abs(params.BLS_X) if C.name == "bls12_381" else params.BN_T
+    r = C.r
+    out = set()
+    lam = (z * z - 1) % r if C.name == "bls12_381" else (36 * z ** 3 + 18 * z * z + 6 * z + 1) % r
+    for base in (z, z * z, z * z - 1, z ** 3 % r, lam, 6 * z + 2, 6 * z * z % r):
+        for k in (1, 2, 3, 31415926535):
+            v = (k * base) % r
+            out.update((v, r - v, v + 1, r + v, r + 2, 2 * r + v))
+    out.update(((r - 1) // 2, (r + 1) // 2, r + 2, r + 3, 2 * r + 1, 3 * r + 2, 2 ** 255, 2 ** 254, 2 ** 256 - 1))
+    return sorted(v for v in out if v >= 0)
+
+
 def s_scalar(C, big):
     spec = [0, 1, 2, 3, C.r - 1, C.r, C.r + 1, 2 * C.p - C.r]
     if big:
-        return st.one_of(st.sampled_from(spec), uniform_int(0, 2 ** 640), uniform_int(0, C.r), st.integers(0, 100))
+        return st.one_of(st.sampled_from(spec), st.sampled_from(family_scalars(C)), uniform_int(0, 2 ** 640),
+                         uniform_int(0, C.r), st.integers(0, 100))
     return st.one_of(st.sampled_from(spec[:4]), st.integers(0, 2 ** 16), st.integers(0, 2 ** 64))
 
 
